@@ -319,6 +319,9 @@ pub fn run(report: &Report) {
     }
     doc_vectors(report);
     super::pyfront::c06_part(report, if q { 4 } else { 6 });
+    super::pyfront::sweep(report, "representations", if q { 0 } else { 1 },
+        "Python Categorical in every flavour and dtype: the model family with per-symbol probability rows emits the words of the concrete model (whose words are those of the Rust front end by the vectors above)",
+        &["Categorical"], &[]);
     super::pyfront::sweep(report, "views", if q { 3 } else { 4 }, "every constructor that takes compressed words (8) on every word string up to the listed length over 6 words, and every call form that takes symbol / parameter arrays (3 coders x 2 forms) on every message up to length 4: a negative-stride view, a stride-2 view and an interior slice must be read like a contiguous copy", &[], &[]);
     let empty: Vec<Vec<u128>> = vec![vec![]];
     explore_ans::<U8U16>(report, &empty, &small_alphabet::<U8U16>(), if q { 6 } else { 7 }, "mixed-precision-14");
